@@ -468,7 +468,9 @@ def main(ck):
         else:
           ub, _ = gr.penetration_depth_sampled(S[0], S[1], 400, True, extra=[f12[3:] - f12[:3], S[1].pos - S[0].pos])
           est = -ub
-        band[0] = abs(est) <= TOUCH_BAND * tol_ccd + tprim
+        # by construction |signed distance| <= |delta| for unshifted poses (support points at distance delta along dvec)
+        bydelta = (not info['shifted']) and abs(info['delta']) <= TOUCH_BAND * tol_ccd
+        band[0] = bydelta or abs(est) <= TOUCH_BAND * tol_ccd + tprim
         if band[0]:
           labels.append('geomDistance-touching-band')
       return band[0]
